@@ -450,6 +450,7 @@ package utreexo
 //@   bounded-write proof.Proof
 //@ func (m *MapPollard) Ingest(delHashes []Hash, proof Proof) (err error)
 //@   acquires W
+//@   requires m.TotalRows <= 63 && len(delHashes) == len(proof.Targets)
 //@ func (m *MapPollard) Prune(hashes []Hash) (err error)
 //@   acquires W
 //@ func (m *MapPollard) Prove(proveHashes []Hash) (p Proof, err error)
@@ -492,6 +493,9 @@ package utreexo
 //@   lock: W
 //@ func (m *MapPollard) ingest(delHashes []Hash, proof Proof) (err error)
 //@   lock: W
+//@   requires m.TotalRows <= 63 && len(delHashes) == len(proof.Targets)
+//@   loop 1: invariant len(proofPos) <= len(proof.Proof)
+//@   loop 2: invariant len(intermediate.positions) == len(intermediate.hashes)
 //@ func (m *MapPollard) cached(hashes []Hash) (res bool)
 //@   pure
 //@   lock: R
